@@ -10,7 +10,8 @@ import JoblibModel.IOUtil
   `<target>` : `path:<s>` | `pathlib:<s>` | `file` | `bytesio` | `other`
   `<s>`      : code points in decimal joined by `.`, `-` for the empty string
 * `detect <hex>` → `compat` | `method <name>` | `not-compressed`   (`_detect_compressor` on these first bytes)
-* `sniff <peekable 0|1> <bytes peek() returns> <pos> <hex of the whole file>` → `<detected> pos=<cursor afterwards>`   (`_detect_compressor` on an open file at `pos`)
+* `sniff <peekable 0|1> <bytes peek() returns> <pos> <hex of the whole file>` → `<detected> pos=<cursor afterwards>`   (`_detect_compressor` on an open seekable file at `pos`)
+* `sniffns <bytes peek() returns> <pos> <hex>` → the same for a peekable object that is not seekable
 * `start <hex>`  → `yes` | `no`                                     (`isPickleStart`)
 * `tables`       → the generated tables the driver was built from
 Anything else → `bad-op`. -/
@@ -120,6 +121,12 @@ def handle (line : String) : String :=
       let r := sniff pk pkd b pos
       showDetected r.1 ++ " pos=" ++ toString r.2
     | _, _, _, _ => "bad-op"
+  | ["sniffns", pkd, pos, h] =>   -- a peekable object that is NOT seekable (a buffered reader over a pipe)
+    match pkd.toNat?, pos.toNat?, parseHex h with
+    | some pkd, some pos, some b =>
+      let r := sniff true pkd b pos false
+      showDetected r.1 ++ " pos=" ++ toString r.2
+    | _, _, _ => "bad-op"
   | ["start", h] =>
     match parseHex h with
     | some b => if isPickleStart b then "yes" else "no"
